@@ -81,6 +81,9 @@ def record_ops(fmt, prior):
     fs.install()
     try:
         gw.tasks.persistence.save_sensors()
+    except Exception:  # pylint: disable=broad-except
+        # an unfaulted save that raises on this prior configuration: judged by the 'nothing injected' scenario
+        return []
     finally:
         fs.uninstall()
     return fs.ops
@@ -90,6 +93,7 @@ def run_scenario(scn):
     """One crash / fail scenario on a fresh copy of the template. Returns (violations, info)."""
     install_shims()
     fmt, prior, mode, at, cut, loss = scn[:6]
+    persistent = mode == "failp"  # the operation keeps failing for the rest of this save (a retry does not help)
     buffered = len(scn) > 6 and scn[6] == "buffered"
     style = scn[6] if len(scn) > 6 and scn[6] in ("relative", "symlink", "filelink") else "absolute"
     tmpl = os.path.join(base_dir(), f"tmpl-{fmt}-{prior}")
@@ -115,7 +119,7 @@ def run_scenario(scn):
         os.symlink(os.path.join(d, f"p.{fmt}"), os.path.join(d + "-fl", f"p.{fmt}"))
         path = os.path.join(d + "-fl", f"p.{fmt}")
     try:
-        return _run_scenario_at(scn, d, path, fmt, prior, mode, at, cut, loss, buffered, style)
+        return _run_scenario_at(scn, d, path, fmt, prior, "fail" if persistent else mode, at, cut, loss, buffered, style, persistent)
     finally:
         os.chdir(cwd)
         if os.path.islink(d + "-link"):
@@ -123,13 +127,13 @@ def run_scenario(scn):
         shutil.rmtree(d + "-fl", ignore_errors=True)
 
 
-def _run_scenario_at(scn, d, path, fmt, prior, mode, at, cut, loss, buffered, style):
+def _run_scenario_at(scn, d, path, fmt, prior, mode, at, cut, loss, buffered, style, persistent=False):
     old_tree = TREES["old"] if prior != "nothing" else ()
     new_tree = TREES["new"]
     viols = []
     replay = {"kind": "fault", "check": PROP, "scenario": list(scn)}
     gw = make_gateway(path, NEW)
-    fs = FaultFS(mode, at, cut, buffered=buffered)
+    fs = FaultFS(mode, at, cut, buffered=buffered, persistent=persistent)
     fs.install()
     raised = None
     try:
@@ -148,7 +152,12 @@ def _run_scenario_at(scn, d, path, fmt, prior, mode, at, cut, loss, buffered, st
             # the save finished before reaching the crash point (op index beyond this run)
             pass
         fs.apply_loss(loss)
-    sig_loc = ("buffered|" if buffered else "") + (f"path={style}|" if style != "absolute" else "") + f"{mode}@{opname}" + (f"+torn" if cut else "") + (f"|loss={loss if isinstance(loss, str) else 'prefix'}" if mode == "crash" else "")
+    if mode == "crash" and isinstance(raised, Exception) and not fs.crashed and not reached:
+        viols.append(Violation(PROP, f"save-raises-without-fault|{fmt}|{prior}|{type(raised).__name__}", f"{fmt}/{prior}: a save with nothing injected before it raised {type(raised).__name__}: {short(str(raised))}", replay))
+        return viols, reached
+    if persistent and raised is None and reached:
+        viols.append(Violation(PROP, f"persistent-failure-swallowed|{fmt}|{opname}", f"{fmt}/{prior}: {describe(op)} kept failing, yet save_sensors() returned normally", replay))
+    sig_loc = ("persistent|" if persistent else "") + ("buffered|" if buffered else "") + (f"path={style}|" if style != "absolute" else "") + f"{mode}@{opname}" + (f"+torn" if cut else "") + (f"|loss={loss if isinstance(loss, str) else 'prefix'}" if mode == "crash" else "")
     if mode == "fail":
         if isinstance(raised, Exception) and not isinstance(raised, OSError):
             viols.append(Violation(PROP, f"fail-raises-other|{sig_loc}|{type(raised).__name__}", f"failing {describe(op)} made save raise {type(raised).__name__}: {raised}", replay))
@@ -234,6 +243,8 @@ def scenarios(tier):
                 if op[0] == "fsync":
                     nwrites_before = 0
                 scns.append((fmt, prior, "fail", k, None, "none"))
+                if op[0] in ("rename", "remove", "fsync", "open"):
+                    scns.append((fmt, prior, "failp", k, None, "none"))
             # one past the end: the save completes, nothing injected (sanity: must load 'new')
             for loss in ("none", "drop", "zero", ("prefix", 0), ("prefix", 1)):
                 scns.append((fmt, prior, "crash", len(ops), None, loss))
